@@ -328,6 +328,21 @@ def exc_missing_fragment(repo, tier="quick"):
         (obs.append(ob_fail(oid, fi, g.ast, construct="real node may skip instantiation", instance="instantiation",
                             reason="a node with a fragment can be left without fine nodes")) if miss else
          obs.append(ob_ok(oid, fi, g.ast, construct="real node: merge_graphs on every path", instance="instantiation", reason="every node with a fragment is instantiated")))
+        # every iteration either instantiates the node or has looked at the orders of its own edges: no other way round the loop
+        if verdict and verdict[1]:
+            order_test = verdict[0].id
+            bypass = False
+            for s in [dst for dst, lab in cfg.succ[head] if lab == "iter"]:
+                if s in merges or s == order_test:
+                    continue
+                reach = {s} | cfg.reachable_from(s, avoid=set(merges) | {order_test}, edge_filter=lambda a_, b_, l_: l_ != "exc")
+                if head in reach:
+                    bypass = True
+            (obs.append(ob_fail(oid, fi, loops[0].ast, construct="an iteration can end without merge_graphs and without the order test", instance="every-skip-tested",
+                                reason="a coarse node can be skipped on other grounds than `all its edges have order 0` (for example because a node of "
+                                       "the same name was virtual): a real node without fragment is then dropped silently")) if bypass else
+             obs.append(ob_ok(oid, fi, loops[0].ast, construct="every iteration passes merge_graphs or the order test", instance="every-skip-tested",
+                              reason="a node is skipped only after its own edges were inspected")))
     return obs
 
 
